@@ -27,7 +27,11 @@ Definition fname := N.   (* function name *)
 Inductive param := PF (g : fname) | PV (x : vname).
 
 (* native functions reachable from F through opcall *)
-Inductive fn0 := F0Error | F0Length | F0ToString | F0ToJson.   (* tostring / tojson: what string interpolation applies *)
+Inductive fn0 := F0Error | F0Length | F0ToString | F0ToJson   (* tostring / tojson: what string interpolation applies *)
+  | F0ToHtml | F0ToUri | F0ToCsv | F0ToTsv | F0ToSh | F0ToBase64   (* @html @uri @csv @tsv @sh @base64: _tohtml ... (compileFormat) *)
+  | F0Keys | F0Type.                                              (* keys, type: used by builtins written in jq *)
+(* natives with one argument (compileCallInternal with one argument): error(msg) *)
+Inductive fn1 := F1Error.
 Inductive binop := OAdd | OSub | OEq | ONe | OLt | OLe | OGt | OGe.
 
 (* destructuring patterns of `as` (query.go Pattern): $x, [p, ...], {k: p, "k": p, $x, $x: p}.
@@ -55,8 +59,8 @@ Inductive query :=
 | QAlt (a b : query)                    (* a // b *)
 | QTry (a : query) (h : option query)   (* try a catch h ; a? *)
 | QArray (q : query)                    (* [q] *)
-| QReduce (src : query) (x : vname) (init upd : query)
-| QForeach (src : query) (x : vname) (init upd : query) (ext : option query)
+| QReduce (src : query) (p : pattern) (init upd : query)      (* reduce src as PATTERN (init; upd); $x is PVar x *)
+| QForeach (src : query) (p : pattern) (init upd : query) (ext : option query)
 | QLabel (l : lname) (body : query)
 | QBreak (l : lname)
 | QBind (src : query) (x : vname) (body : query)
@@ -68,7 +72,8 @@ Inductive query :=
 | QObject (es : list ((list N + query) * query))
 | QBindP (src : query) (p : pattern) (body : query)
 | QIndexQ (t q : query)           (* t[q] with a computed index (compileIndex -> _index); a literal number / string index is QIndex *)
-| QSlice (t a b : query).         (* t[a:b] with at least one computed bound (-> _slice); an absent bound is QConst VNull;
+| QSlice (t a b : query)
+| QCall1 (f : fn1) (a : query).   (* f(a) for a native f with one argument: error(a) *)         (* t[a:b] with at least one computed bound (-> _slice); an absent bound is QConst VNull;
                                      both bounds literal / absent is QIndex with the key {"start": a, "end": b} *)
     (* QObject: {e1, ..., en}: an entry is (key, value); the key is a constant string (inl: `k: v`, `"k": v`, and the
        shorthands `k` = (inl k, .[k]), `$x` = (inl "x", $x)) or a query (inr: `(q): v`, `$x: v` = (inr $x, v)) *)
